@@ -590,7 +590,13 @@ pub fn exec_step(w: &mut World, s: &mut Session, step: &Step) -> Result<(), Viol
                     let node = match existing {
                         Some(n) => n,
                         None => {
-                            let (p, leaf) = parent.clone().unwrap();
+                            // the library succeeded where the model cannot follow (only possible when the outcome oracle is
+                            // not part of this check): stop this run, it is not this property's business
+                            let Some((p, leaf)) = parent.clone() else {
+                                w.stats.model_diverged += 1;
+                                w.faulted = true;
+                                return Ok(());
+                            };
                             let n = w.model.add(p, &leaf, true, now);
                             out.touch.push(n);
                             n
@@ -612,7 +618,11 @@ pub fn exec_step(w: &mut World, s: &mut Session, step: &Step) -> Result<(), Viol
                     let node = match existing {
                         Some(n) => n,
                         None => {
-                            let (p, leaf) = parent.clone().unwrap();
+                            let Some((p, leaf)) = parent.clone() else {
+                                w.stats.model_diverged += 1;
+                                w.faulted = true;
+                                return Ok(());
+                            };
                             let n = w.model.add(p, &leaf, false, now);
                             out.touch.push(n);
                             n
@@ -859,6 +869,12 @@ pub fn exec_step(w: &mut World, s: &mut Session, step: &Step) -> Result<(), Viol
             let r = lib!(sh.d.rename(spath, &dh.d, dpath));
             out.res = r.map_err(|e| map_err(&e));
             check_outcome(w, &format!("rename({:?} -> {:?})", spath, dpath), &out.res, &errs, nospace_ok, self_move && errs.is_empty())?;
+            if out.res.is_ok() && !will_move && !same && !(errs.is_empty() && self_move) && !errs.is_empty() {
+                // library renamed something the model says cannot be renamed (outcome oracle off): stop the run
+                w.stats.model_diverged += 1;
+                w.faulted = true;
+                return Ok(());
+            }
             if out.res.is_ok() && will_move {
                 let (dp, leaf) = dst.unwrap();
                 let sn = src.unwrap();
